@@ -36,13 +36,15 @@ pub struct Graph {
     /// file of which the INCLUDE_DIR directory holds another file of the same name: the including file's own
     /// directory is searched first, so the other one is never part of the workspace
     pub shadow_of: Option<usize>,
+    /// file that spells the path of its first include as an absolute path
+    pub absolute_in: Option<usize>,
 }
 
 impl Graph {
     fn to_json(&self) -> Value {
         json!({
             "n": self.n, "edges": self.edges, "root": self.root, "class_first": self.class_first,
-            "missing_in": self.missing_in, "incdir_file": self.incdir_file, "repeat_in": self.repeat_in, "dotdot_in": self.dotdot_in, "shadow_of": self.shadow_of, "witness": self.witness(),
+            "missing_in": self.missing_in, "incdir_file": self.incdir_file, "repeat_in": self.repeat_in, "dotdot_in": self.dotdot_in, "shadow_of": self.shadow_of, "absolute_in": self.absolute_in, "witness": self.witness(),
         })
     }
 
@@ -57,6 +59,7 @@ impl Graph {
             repeat_in: v["repeat_in"].as_u64().map(|x| x as usize),
             dotdot_in: v["dotdot_in"].as_u64().map(|x| x as usize),
             shadow_of: v["shadow_of"].as_u64().map(|x| x as usize),
+            absolute_in: v["absolute_in"].as_u64().map(|x| x as usize),
         }
     }
 
@@ -79,6 +82,9 @@ impl Graph {
             }
             if self.shadow_of == Some(i) {
                 s.push_str("+same-name-in-incdir");
+            }
+            if self.absolute_in == Some(i) {
+                s.push_str("+first-include-by-absolute-path");
             }
             parts.push(s);
         }
@@ -113,6 +119,11 @@ impl Graph {
         if self.dotdot_in == Some(i) {
             if let Some(first) = names.first_mut() {
                 *first = format!("sub/../{first}");
+            }
+        }
+        if self.absolute_in == Some(i) {
+            if let Some(j) = (0..self.n).find(|j| self.edges[i] >> j & 1 == 1) {
+                names[0] = self.path_of(j);
             }
         }
         if self.missing_in == Some(i) {
@@ -155,6 +166,9 @@ impl Graph {
         if self.shadow_of.is_some() {
             out.push(Graph { shadow_of: None, ..self.clone() });
         }
+        if self.absolute_in.is_some() {
+            out.push(Graph { absolute_in: None, ..self.clone() });
+        }
         if self.dotdot_in.is_some() {
             out.push(Graph { dotdot_in: None, ..self.clone() });
         }
@@ -162,7 +176,7 @@ impl Graph {
             out.push(Graph { class_first: false, ..self.clone() });
         }
         // drop the last file when nothing refers to it
-        if self.n > 1 && self.root != self.n - 1 && self.missing_in != Some(self.n - 1) && self.incdir_file != Some(self.n - 1) && self.repeat_in != Some(self.n - 1) && self.dotdot_in != Some(self.n - 1) && self.shadow_of != Some(self.n - 1) {
+        if self.n > 1 && self.root != self.n - 1 && self.missing_in != Some(self.n - 1) && self.incdir_file != Some(self.n - 1) && self.repeat_in != Some(self.n - 1) && self.dotdot_in != Some(self.n - 1) && self.shadow_of != Some(self.n - 1) && self.absolute_in != Some(self.n - 1) {
             let mask = !(1u32 << (self.n - 1));
             let mut g = self.clone();
             g.n -= 1;
@@ -206,7 +220,8 @@ fn resolve(existing: &BTreeSet<String>, from_dir: &str, name: &str, incdir: Opti
     if let Some(d) = incdir {
         dirs.push(d.to_string());
     }
-    dirs.into_iter().map(|d| normalize(&format!("{d}/{name}"))).find(|p| existing.contains(p))
+    // an absolute path names its file whatever the directory it is looked up from
+    dirs.into_iter().map(|d| if name.starts_with('/') { normalize(name) } else { normalize(&format!("{d}/{name}")) }).find(|p| existing.contains(p))
 }
 
 pub fn eval_graph(g: &Graph) -> Vec<Failure> {
@@ -344,7 +359,7 @@ fn for_each_graph(tier: Tier, ctx: &mut Ctx, mut f: impl FnMut(&mut Ctx, &Graph)
             for root in 0..n {
                 let layouts: &[bool] = if n <= 3 { &[false, true] } else { &[false] };
                 for &class_first in layouts {
-                    let base = Graph { n, edges: edges.clone(), root, class_first, missing_in: None, incdir_file: None, repeat_in: None, dotdot_in: None, shadow_of: None };
+                    let base = Graph { n, edges: edges.clone(), root, class_first, missing_in: None, incdir_file: None, repeat_in: None, dotdot_in: None, shadow_of: None, absolute_in: None };
                     if !f(ctx, &base) {
                         return;
                     }
@@ -361,6 +376,9 @@ fn for_each_graph(tier: Tier, ctx: &mut Ctx, mut f: impl FnMut(&mut Ctx, &Graph)
                                 return;
                             }
                             if edges[v] != 0 && !f(ctx, &Graph { repeat_in: Some(v), ..base.clone() }) {
+                                return;
+                            }
+                            if edges[v] != 0 && !f(ctx, &Graph { absolute_in: Some(v), ..base.clone() }) {
                                 return;
                             }
                             if edges[v] != 0 && !f(ctx, &Graph { dotdot_in: Some(v), ..base.clone() }) {
@@ -385,7 +403,7 @@ impl Engine for C16 {
     fn rule(&self, tier: Tier) -> String {
         format!(
             "every directed graph with self-loops on n files x every root: all edge sets for n <= 4 (n <= 3: both declaration orders), n = 5 with out-degree <= {}; \
-             for n <= 3 additionally one file including a missing target, one non-root file present only under INCLUDE_DIR, one included file whose name also names another file under INCLUDE_DIR (the own directory wins), one file writing its first include statement twice (a multi-edge), one file spelling its first include through `sub/../` (the same file under another spelling), and both together. \
+             for n <= 3 additionally one file including a missing target, one non-root file present only under INCLUDE_DIR, one included file whose name also names another file under INCLUDE_DIR (the own directory wins), one file writing its first include statement twice (a multi-edge), one file spelling its first include as an absolute path, one file spelling its first include through `sub/../` (the same file under another spelling), and both together. \
              non-trivial = the graph has a cycle, a diamond or an unresolvable include; graphs are distinct by construction.",
             tier.pick(1, 2)
         )
